@@ -334,7 +334,7 @@ impl World {
                 toks.sort();
                 uidset.push(toks);
                 let rr = self.doms[d].as_ref().unwrap().root_ref();
-                root.push(self.spec_ref(rr));
+                root.push(if rr.is_none() { -1 } else { self.spec_ref(rr) });    // -1: Rootless (WeakDom::default())
             } else {
                 uidset.push(Vec::new());
                 root.push(0);
@@ -381,6 +381,10 @@ impl World {
                 "new" => {
                     let b = self.build(&op["b"]);
                     self.doms[d.unwrap()] = Some(WeakDom::new(b));
+                    json!(null)
+                }
+                "default" => {
+                    self.doms[d.unwrap()] = Some(WeakDom::default());
                     json!(null)
                 }
                 "insert" => {
@@ -485,6 +489,9 @@ impl World {
         let mut out = Vec::new();
         for d in 0..NUM_DOMS {
             if let Some(dom) = self.doms[d].as_ref() {
+                if dom.root_ref().is_none() {
+                    continue;       // a rootless DOM has no "all descendants" walk
+                }
                 let start = self.spec_ref(dom.root_ref());
                 let y: Vec<i64> = dom.descendants().take(10_000).map(|i| self.spec_ref(i.referent())).collect();
                 out.push(json!({"op": "walk", "start": start, "yield": y}));
@@ -610,10 +617,14 @@ fn random_steps(w: &mut World, rng: &mut StdRng, steps: usize, uid_pool: i64, la
             let d = rng.gen_range(0..NUM_DOMS);
             let live = w.live(d);
             let root = w.spec_ref(w.doms[d].as_ref().unwrap().root_ref());
+            let rootless = w.doms[d].as_ref().unwrap().root_ref().is_none();
             let nonroot: Vec<i64> = live.iter().copied().filter(|r| *r != root).collect();
             let room = max_ref as i64 - w.refs.len() as i64;
             let choice = rng.gen_range(0..100);
-            let op = if choice < 25 && room >= 1 {
+            if live.is_empty() && room < 1 {
+                continue;
+            }
+            let op = if (choice < 25 || live.is_empty()) && room >= 1 {
                 // now and then a builder with many children under one node (6-7), the others small
                 let b = if room >= 8 && rng.gen_bool(0.12) {
                     { let n = rng.gen_range(7..=8); wide_builder(w, rng, lab, n, uid_pool) }
@@ -621,13 +632,16 @@ fn random_steps(w: &mut World, rng: &mut StdRng, steps: usize, uid_pool: i64, la
                     random_builder(w, rng, lab, (room as usize).min(4), uid_pool)
                 };
                 lab += 10;
-                let p = if rng.gen_range(0..10) == 0 { 0 } else { live[rng.gen_range(0..live.len())] };
+                let p = if live.is_empty() || rng.gen_range(0..10) == 0 { 0 } else { live[rng.gen_range(0..live.len())] };
                 json!({"op": "insert", "d": d + 1, "p": p, "b": b})
             } else if choice < 40 && !nonroot.is_empty() {
                 json!({"op": "destroy", "d": d + 1, "r": nonroot[rng.gen_range(0..nonroot.len())]})
             } else if choice < 55 && !nonroot.is_empty() {
                 let e = 1 - d;
                 let le = w.live(e);
+                if le.is_empty() {
+                    continue;
+                }
                 json!({"op": "transfer", "d": d + 1, "r": nonroot[rng.gen_range(0..nonroot.len())],
                        "e": e + 1, "p": le[rng.gen_range(0..le.len())]})
             } else if choice < 72 && !nonroot.is_empty() {
@@ -639,6 +653,8 @@ fn random_steps(w: &mut World, rng: &mut StdRng, steps: usize, uid_pool: i64, la
                 } else {
                     json!({"op": "transfer_within", "d": d + 1, "r": r, "p": p})
                 }
+            } else if live.is_empty() {
+                continue;
             } else if choice < 90 {
                 let r = live[rng.gen_range(0..live.len())];
                 let sz = w.subtree(d, r).len() as i64;
@@ -671,6 +687,9 @@ fn random_steps(w: &mut World, rng: &mut StdRng, steps: usize, uid_pool: i64, la
                     }
                 }
             } else if choice < 93 {
+                if rootless {
+                    continue;       // from_raw requires a root
+                }
                 json!({"op": "rawtrip", "d": d + 1})
             } else if num_slots > 0 {
                 let r = live[rng.gen_range(0..live.len())];
@@ -747,6 +766,14 @@ pub fn drive(seed: u64, episodes: usize, steps: usize, max_ref: usize, num_slots
         let uid_pool = [0, 2, 4][rng.gen_range(0..3)];
         let mut lab = 1;
         for d in 1..=NUM_DOMS {
+            // every fourth episode the second DOM is WeakDom::default(): no root, filled by clones, transfers
+            // and inserts under Ref::none()
+            if d == 2 && epi % 4 == 2 {
+                for ev in w.exec(&json!({"op": "default", "d": d})) {
+                    emit(out, &ep, ev);
+                }
+                continue;
+            }
             let b = random_builder(&w, &mut rng, lab, 3, uid_pool);
             lab += 10;
             let op = json!({"op": "new", "d": d, "b": b});
